@@ -1347,3 +1347,433 @@ Lemma ex_state_ok args :
   hp (ex_state args) = hp (vm_empty 16) -> st (ex_state args) = st (vm_empty 16) ->
   values_are_refs (ex_state args).
 Proof. intros E1 E2. eapply wf_hp_st; eauto. apply wf_empty. lia. Qed.
+
+(* ============================================== make-vector, vector-copy, vector-copy! *)
+Lemma deref_index s v :
+  val_ok s v -> exists c, heap_deref (hp s) v = Ok c /\
+    aindex (absv s v) = match c with VNum n => num_to_usize n | _ => None end.
+Proof.
+  intros Hv. destruct (val_deref s v Hv) as (c & Hc & Ha & Hd). exists c. split; [exact Hc|].
+  rewrite Ha. destruct v; cbn [val_ok] in Hv; try contradiction;
+    try (cbn [heap_deref] in Hc; injection Hc as <-; reflexivity).
+  destruct c; cbn [cell_val aindex data_cell] in *; try contradiction; reflexivity.
+Qed.
+
+Definition MAX_VEC : N := 0x3ffffffffffffff.
+
+Lemma map_repeat' {A B} (f : A -> B) x n : map f (repeat x n) = repeat (f x) n.
+Proof. induction n as [|n IH]; cbn; [reflexivity | now rewrite IH]. Qed.
+
+Theorem make_vector_refines s k fill :
+  values_are_refs s -> val_ok s k -> val_ok s fill -> called_with s [k; fill] ->
+  match aindex (absv s k) with
+  | Some i =>
+      i <= MAX_VEC ->
+      exists p vid s', call_builtin make_vector s = ROk (VPtr p) s' /\
+        absv s' (VPtr p) = ALoc (LVec vid) /\ a_vec (abs s) vid = None /\
+        a_vec (abs s') vid = Some (repeat (absv s fill) (N.to_nat i)) /\
+        pres s s' /\ values_are_refs s' /\ ~ live (hp s) p /\ target_ok s' p
+  | None => exists s', call_builtin make_vector s = RErr E_OTHER [] s'
+  end.
+Proof.
+  intros W Hk Hf H. unfold called_with in H. cbn [len length rev app N.of_nat Pos.of_succ_nat] in H.
+  set (s1 := with_sp s (sp s - 1)).
+  set (s2 := with_sp s1 (sp s1 - 1)).
+  set (s3 := with_sp s2 (sp s2 - 1)).
+  pose proof (stack_top_tail _ _ _ _ H) as H1.
+  pose proof (stack_top_tail _ _ _ _ H1) as H2.
+  destruct (deref_index s k Hk) as (c & Hc & Hi).
+  assert (Hrun : make_vector s =
+    match c with
+    | VNum n => match num_to_usize n with
+                | Some j => if MAX_VEC <? j then RPanic P_CAPACITY else vec_new (repeat fill (N.to_nat j)) s3
+                | None => RErr E_OTHER [] s3
+                end
+    | _ => RErr E_OTHER [] s3
+    end).
+  { unfold make_vector. pop_argc_tac H s 2 1 (Some 2). fold s1.
+    change (2 =? 2) with true. cbv iota.
+    rewrite (bind_ok _ _ _ _ _ (pop_raw_top s1 fill _ H1)). fold s2.
+    unfold bindM at 1. rewrite (pop_value_top s2 k [] H2). fold s3. unfold lift.
+    change (hp s2) with (hp s). rewrite Hc.
+    destruct c; try reflexivity. destruct (num_to_usize n); try reflexivity.
+    unfold MAX_VEC. destruct (_ <? n0); reflexivity. }
+  rewrite Hi.
+  destruct c; try (exists s3; unfold call_builtin; rewrite (bind_err _ _ _ _ _ _ Hrun); reflexivity).
+  destruct (num_to_usize n) as [i|]; [|exists s3; unfold call_builtin; rewrite (bind_err _ _ _ _ _ _ Hrun); reflexivity].
+  intros Hle. assert (Ei : (MAX_VEC <? i) = false) by (apply N.ltb_ge; exact Hle). rewrite Ei in Hrun.
+  assert (Hl : Forall (val_ok s3) (repeat fill (N.to_nat i))).
+  { apply Forall_forall. intros y Hy. apply repeat_spec in Hy. subst y. exact Hf. }
+  destruct (wrap_new_vector s3 _ W Hl) as (p & vid & s' & E & Ep & Hnone & Hvv & R).
+  exists p, vid, s'. refine (conj _ (conj Ep (conj Hnone (conj _ R)))).
+  - unfold call_builtin. unfold bindM at 1. rewrite Hrun. exact E.
+  - rewrite Hvv. rewrite map_repeat'. reflexivity.
+Qed.
+
+Lemma take_firstn {A} n (l : list A) : take n l = firstn n l.
+Proof. revert l; induction n as [|n IH]; intros [|x r]; cbn; try reflexivity. now rewrite IH. Qed.
+Lemma drop_skipn {A} n (l : list A) : drop n l = skipn n l.
+Proof. revert l; induction n as [|n IH]; intros [|x r]; cbn; try reflexivity. apply IH. Qed.
+
+Lemma clone_vector_suffix l start :
+  start <= len l ->
+  forall s, clone_vector l (Some start) None s = ROk (skipn (N.to_nat start) l) s.
+Proof.
+  intros Hle s. unfold clone_vector.
+  assert (E1 : (len l <? start) = false) by (apply N.ltb_ge; exact Hle). rewrite E1. rewrite E1.
+  unfold ret. f_equal. rewrite take_firstn, drop_skipn.
+  apply firstn_all2. rewrite skipn_length. unfold len in *. lia.
+Qed.
+
+Lemma clone_vector_all l s : clone_vector l None None s = ROk l s.
+Proof.
+  unfold clone_vector.
+  assert (E1 : (len l <? 0) = false) by (apply N.ltb_ge; lia). rewrite E1. rewrite E1.
+  unfold ret. f_equal. rewrite take_firstn, drop_skipn. cbn [N.to_nat skipn].
+  apply firstn_all2. unfold len. lia.
+Qed.
+
+(* vector-copy with a start index (the end argument is excluded by the property):
+   a NEW vector holding the suffix; start = length gives the empty vector (fix F2) *)
+Theorem vector_copy_refines s v k :
+  values_are_refs s -> val_ok s v -> val_ok s k -> called_with s [v; k] ->
+  match absv s v, aindex (absv s k) with
+  | ALoc (LVec vid0), Some i =>
+      exists xs, a_vec (abs s) vid0 = Some xs /\
+        if i <=? N.of_nat (length xs) then
+          exists p vid s', call_builtin vector_copy s = ROk (VPtr p) s' /\
+            absv s' (VPtr p) = ALoc (LVec vid) /\ a_vec (abs s) vid = None /\
+            a_vec (abs s') vid = Some (skipn (N.to_nat i) xs) /\
+            pres s s' /\ values_are_refs s' /\ ~ live (hp s) p /\ target_ok s' p
+        else exists s', call_builtin vector_copy s = RErr E_OTHER [] s'
+  | _, _ => exists s', call_builtin vector_copy s = RErr E_OTHER [] s'
+  end.
+Proof.
+  intros W Hv Hk H. unfold called_with in H. cbn [len length rev app N.of_nat Pos.of_succ_nat] in H.
+  set (s1 := with_sp s (sp s - 1)).
+  set (s2 := with_sp s1 (sp s1 - 1)).
+  set (s3 := with_sp s2 (sp s2 - 1)).
+  pose proof (stack_top_tail _ _ _ _ H) as H1.
+  pose proof (stack_top_tail _ _ _ _ H1) as H2.
+  assert (Hrun : vector_copy s =
+    match aindex (absv s k) with
+    | Some i =>
+        match absv s v with
+        | ALoc (LVec vid) =>
+            (dom l <- vec_get vid;
+             if len l <? i then fail E_OTHER
+             else dom out <- clone_vector l (Some i) None; vec_new out) s3
+        | _ => RErr E_OTHER [] s3
+        end
+    | None => RErr E_OTHER [] s2
+    end).
+  { unfold vector_copy. pop_argc_tac H s 2 1 (Some 3). fold s1.
+    change (2 =? 3) with false. change (1 <? 2) with true. cbv iota.
+    unfold bindM at 1. unfold ret at 1.
+    unfold bindM at 1. unfold bindM at 1. rewrite (pop_index_spec s1 k _ Hk H1). change (absv s1 k) with (absv s k).
+    destruct (aindex (absv s k)) as [i|]; [|reflexivity]. fold s2. unfold ret at 1.
+    unfold bindM at 1. rewrite (pop_vector_spec s2 v [] Hv H2). change (absv s2 v) with (absv s v).
+    destruct (absv s v) as [w|l|]; try reflexivity. destruct l; reflexivity. }
+  destruct (absv s v) as [w|l|] eqn:Ea.
+  1,3: destruct (aindex (absv s k)); eexists; unfold call_builtin; rewrite (bind_err _ _ _ _ _ _ Hrun); reflexivity.
+  destruct l as [p|vid0|sid|p].
+  1,3,4: destruct (aindex (absv s k)); eexists; unfold call_builtin; rewrite (bind_err _ _ _ _ _ _ Hrun); reflexivity.
+  destruct (aindex (absv s k)) as [i|];
+    [|eexists; unfold call_builtin; rewrite (bind_err _ _ _ _ _ _ Hrun); reflexivity].
+  destruct (vec_registered s v vid0 W Ea) as (l & Hl & Hal & Hfl).
+  exists (map (absv s) l). split; [exact Hal|]. rewrite map_length.
+  rewrite (bind_ok _ _ _ _ _ (vec_get_ok s3 vid0 l Hl)) in Hrun.
+  destruct (i <=? N.of_nat (length l)) eqn:Ei.
+  - apply N.leb_le in Ei.
+    assert (E1 : (len l <? i) = false) by (apply N.ltb_ge; exact Ei). rewrite E1 in Hrun.
+    rewrite (bind_ok _ _ _ _ _ (clone_vector_suffix l i Ei s3)) in Hrun.
+    assert (Hsk : Forall (val_ok s3) (skipn (N.to_nat i) l)).
+    { apply Forall_forall. intros y Hy. rewrite Forall_forall in Hfl. apply Hfl.
+      rewrite <- (firstn_skipn (N.to_nat i) l). apply in_or_app. now right. }
+    destruct (wrap_new_vector s3 _ W Hsk) as (p & vid & s' & E & Ep & Hnone & Hvv & R).
+    exists p, vid, s'. refine (conj _ (conj Ep (conj Hnone (conj _ R)))).
+    + unfold call_builtin. unfold bindM at 1. rewrite Hrun. exact E.
+    + rewrite Hvv. change (absv s3) with (absv s). now rewrite skipn_map.
+  - apply N.leb_gt in Ei.
+    assert (E1 : (len l <? i) = true) by (apply N.ltb_lt; exact Ei). rewrite E1 in Hrun.
+    eexists; unfold call_builtin; rewrite (bind_err _ _ _ _ _ _ Hrun); reflexivity.
+Qed.
+
+(* ---------------------------------------------------------------- vector-copy! *)
+Lemma list_set_nat_length {A} (l : list A) i x : length (list_set_nat l i x) = length l.
+Proof. revert i; induction l as [|y r IH]; intros [|i]; cbn; auto. Qed.
+
+Lemma list_set_nat_nth {A} (l : list A) i x j :
+  (i < length l)%nat ->
+  nth_error (list_set_nat l i x) j = if (j =? i)%nat then Some x else nth_error l j.
+Proof.
+  revert i j; induction l as [|y r IH]; intros [|i] [|j] H; cbn in *; try lia; try reflexivity.
+  apply IH. lia.
+Qed.
+
+Lemma put_all_spec vals : forall l a,
+  (N.to_nat a + length vals <= length l)%nat ->
+  length (put_all l a vals) = length l /\
+  forall j, nth_error (put_all l a vals) j =
+            if ((N.to_nat a <=? j) && (j <? N.to_nat a + length vals))%nat
+            then nth_error vals (j - N.to_nat a) else nth_error l j.
+Proof.
+  induction vals as [|v r IH]; intros l a Hle; cbn [put_all length] in *.
+  - split; [reflexivity|]. intros j.
+    destruct (N.to_nat a <=? j)%nat eqn:E1; cbn [andb]; [|reflexivity].
+    assert (E2 : (j <? N.to_nat a + 0)%nat = false) by (apply Nat.ltb_ge; apply Nat.leb_le in E1; lia).
+    now rewrite E2.
+  - assert (Hlt : a <? len l = true) by (apply N.ltb_lt; unfold len; lia).
+    unfold vput. rewrite Hlt. unfold list_set.
+    set (l1 := list_set_nat l (N.to_nat a) v).
+    assert (Hl1 : length l1 = length l) by apply list_set_nat_length.
+    destruct (IH l1 (a + 1)) as (HL & HN); [rewrite Hl1; lia|].
+    split; [now rewrite HL|]. intros j. rewrite HN.
+    replace (N.to_nat (a + 1)) with (S (N.to_nat a)) by lia.
+    unfold l1. rewrite list_set_nat_nth by lia.
+    destruct (Nat.eq_dec j (N.to_nat a)) as [->|Hne].
+    + rewrite Nat.eqb_refl.
+      assert (E1 : (S (N.to_nat a) <=? N.to_nat a)%nat = false) by (apply Nat.leb_gt; lia).
+      rewrite E1. cbn [andb].
+      assert (E2 : (N.to_nat a <=? N.to_nat a)%nat = true) by (apply Nat.leb_le; lia).
+      assert (E3 : (N.to_nat a <? N.to_nat a + S (length r))%nat = true) by (apply Nat.ltb_lt; lia).
+      rewrite E2, E3. cbn [andb]. now rewrite Nat.sub_diag.
+    + assert (E0 : (j =? N.to_nat a)%nat = false) by (now apply Nat.eqb_neq). rewrite E0.
+      destruct (S (N.to_nat a) <=? j)%nat eqn:E1.
+      * apply Nat.leb_le in E1.
+        assert (E2 : (N.to_nat a <=? j)%nat = true) by (apply Nat.leb_le; lia). rewrite E2. cbn [andb].
+        destruct (j <? S (N.to_nat a) + length r)%nat eqn:E3.
+        -- apply Nat.ltb_lt in E3.
+           assert (E4 : (j <? N.to_nat a + S (length r))%nat = true) by (apply Nat.ltb_lt; lia). rewrite E4.
+           replace (j - N.to_nat a)%nat with (S (j - S (N.to_nat a))) by lia. reflexivity.
+        -- apply Nat.ltb_ge in E3.
+           assert (E4 : (j <? N.to_nat a + S (length r))%nat = false) by (apply Nat.ltb_ge; lia). now rewrite E4.
+      * apply Nat.leb_gt in E1. cbn [andb].
+        assert (E2 : (N.to_nat a <=? j)%nat = false) by (apply Nat.leb_gt; lia). now rewrite E2.
+Qed.
+
+Lemma collect_range_spec n : forall l i s,
+  (N.to_nat i + n <= length l)%nat ->
+  exists vals, collect_range l i n s = ROk vals s /\ length vals = n /\
+    forall j, (j < n)%nat -> nth_error vals j = nth_error l (N.to_nat i + j).
+Proof.
+  induction n as [|n IH]; intros l i s Hle; cbn [collect_range].
+  - exists []. repeat split. intros j Hj. lia.
+  - rewrite vget_nth.
+    destruct (nth_error l (N.to_nat i)) as [v|] eqn:En; [|apply nth_error_None in En; lia].
+    destruct (IH l (i + 1) s) as (vals & E & HL & HN); [lia|].
+    exists (v :: vals). rewrite (bind_ok _ _ _ _ _ E). repeat split; [cbn; now rewrite HL|].
+    intros [|j] Hj; cbn [nth_error].
+    + now rewrite Nat.add_0_r.
+    + rewrite HN by lia. f_equal. lia.
+Qed.
+
+Definition odef (o : option N) (d : N) : N := match o with Some x => x | None => d end.
+
+(* the R7RS reading of (vector-copy! to at from start end) on the contents: positions
+   at .. at+(end-start) of [to] receive the OLD elements start .. end of [from] (also when
+   both are the same vector); everything else is unchanged *)
+Definition copied (txs fxs txs' : list aval) (at_ sv ev : N) : Prop :=
+  length txs' = length txs /\
+  forall j, nth_error txs' j =
+            if ((N.to_nat at_ <=? j) && (j <? N.to_nat at_ + N.to_nat (ev - sv)))%nat
+            then nth_error fxs (N.to_nat sv + (j - N.to_nat at_)) else nth_error txs j.
+
+Lemma vmc_after_spec s start end_ tov atv fromv :
+  values_are_refs s -> val_ok s tov -> val_ok s atv -> val_ok s fromv ->
+  stack_top (stack s) (sp s) [fromv; atv; tov] ->
+  match absv s fromv, aindex (absv s atv), absv s tov with
+  | ALoc (LVec fid), Some at_, ALoc (LVec tid) =>
+      exists fxs txs, a_vec (abs s) fid = Some fxs /\ a_vec (abs s) tid = Some txs /\
+        let sv := odef start 0 in
+        let ev := odef end_ (N.of_nat (length fxs)) in
+        if (at_ <=? N.of_nat (length txs)) && (sv <=? N.of_nat (length fxs)) &&
+           (ev <=? N.of_nat (length fxs)) && (sv <=? ev) &&
+           (at_ + (ev - sv) <=? N.of_nat (length txs))
+        then exists s' txs', vmc_after start end_ s = ROk VVoid s' /\
+               a_vec (abs s') tid = Some txs' /\ copied txs fxs txs' at_ sv ev /\
+               (forall u, u <> tid -> a_vec (abs s') u = a_vec (abs s) u) /\
+               (forall q, a_pair (abs s') q = a_pair (abs s) q) /\
+               hp s' = hp s /\ values_are_refs s'
+        else exists s', vmc_after start end_ s = RErr E_OTHER [] s'
+  | _, _, _ => exists s', vmc_after start end_ s = RErr E_OTHER [] s'
+  end.
+Proof.
+  intros W Hto Hat Hfrom H.
+  set (s1 := with_sp s (sp s - 1)).
+  set (s2 := with_sp s1 (sp s1 - 1)).
+  set (s3 := with_sp s2 (sp s2 - 1)).
+  pose proof (stack_top_tail _ _ _ _ H) as H1.
+  pose proof (stack_top_tail _ _ _ _ H1) as H2.
+  pose proof (pop_vector_spec s fromv _ Hfrom H) as Pf. fold s1 in Pf.
+  pose proof (pop_index_spec s1 atv _ Hat H1) as Pa. change (absv s1 atv) with (absv s atv) in Pa. fold s2 in Pa.
+  pose proof (pop_vector_spec s2 tov [] Hto H2) as Pt. change (absv s2 tov) with (absv s tov) in Pt. fold s3 in Pt.
+  destruct (absv s fromv) as [w|l|] eqn:Ef;
+    try (eexists; unfold vmc_after; rewrite (bind_err _ _ _ _ _ _ Pf); reflexivity).
+  destruct l as [p|fid|sid|p];
+    try (eexists; unfold vmc_after; rewrite (bind_err _ _ _ _ _ _ Pf); reflexivity).
+  destruct (aindex (absv s atv)) as [at_|];
+    [|eexists; unfold vmc_after; rewrite (bind_ok _ _ _ _ _ Pf), (bind_err _ _ _ _ _ _ Pa); reflexivity].
+  destruct (absv s tov) as [w|l|] eqn:Et;
+    try (eexists; unfold vmc_after; rewrite (bind_ok _ _ _ _ _ Pf), (bind_ok _ _ _ _ _ Pa), (bind_err _ _ _ _ _ _ Pt); reflexivity).
+  destruct l as [p|tid|sid|p];
+    try (eexists; unfold vmc_after; rewrite (bind_ok _ _ _ _ _ Pf), (bind_ok _ _ _ _ _ Pa), (bind_err _ _ _ _ _ _ Pt); reflexivity).
+  unfold vmc_after. rewrite (bind_ok _ _ _ _ _ Pf), (bind_ok _ _ _ _ _ Pa), (bind_ok _ _ _ _ _ Pt).
+  destruct (vec_registered s fromv fid W Ef) as (fl & Hfl & Hafl & Hffl).
+  destruct (vec_registered s tov tid W Et) as (tl & Htl & Hatl & Hftl).
+  exists (map (absv s) fl), (map (absv s) tl). refine (conj Hafl (conj Hatl _)).
+  rewrite !map_length. cbv zeta.
+  rewrite (bind_ok _ _ _ _ _ (vec_get_ok s3 tid tl Htl)).
+  rewrite (bind_ok _ _ _ _ _ (vec_get_ok s3 fid fl Hfl)).
+  set (sv := odef start 0). set (ev := odef end_ (N.of_nat (length fl))).
+  unfold len.
+  destruct (at_ <=? N.of_nat (length tl)) eqn:C1; cbn [andb].
+  2: { apply N.leb_gt in C1. assert (E : (N.of_nat (length tl) <? at_) = true) by (now apply N.ltb_lt).
+       rewrite E. eexists; reflexivity. }
+  apply N.leb_le in C1. assert (E1 : (N.of_nat (length tl) <? at_) = false) by (now apply N.ltb_ge). rewrite E1.
+  assert (Hb1 : match start with Some s0 => N.of_nat (length fl) <? s0 | None => false end = negb (sv <=? N.of_nat (length fl))).
+  { unfold sv, odef. destruct start as [x|];
+      [|now rewrite (proj2 (N.leb_le 0 _) (N.le_0_l _))].
+    destruct (x <=? N.of_nat (length fl)) eqn:E; cbn [negb].
+    - apply N.leb_le in E. now apply N.ltb_ge. - apply N.leb_gt in E. now apply N.ltb_lt. }
+  assert (Hb2 : match end_ with Some e => N.of_nat (length fl) <? e | None => false end = negb (ev <=? N.of_nat (length fl))).
+  { unfold ev, odef. destruct end_ as [x|].
+    - destruct (x <=? N.of_nat (length fl)) eqn:E; cbn [negb].
+      + apply N.leb_le in E. now apply N.ltb_ge. + apply N.leb_gt in E. now apply N.ltb_lt.
+    - rewrite N.leb_refl. reflexivity. }
+  rewrite Hb1, Hb2.
+  destruct (sv <=? N.of_nat (length fl)) eqn:C2; cbn [negb andb]; [|eexists; reflexivity].
+  destruct (ev <=? N.of_nat (length fl)) eqn:C3; cbn [negb andb]; [|eexists; reflexivity].
+  apply N.leb_le in C2, C3.
+  assert (Hb3 : match start, end_ with Some s0, Some e => e <? s0 | _, _ => false end = negb (sv <=? ev)).
+  { unfold sv, ev, odef in *. destruct start as [x|], end_ as [y|]; cbn [negb].
+    - destruct (x <=? y) eqn:E; cbn [negb]; [apply N.leb_le in E; now apply N.ltb_ge | apply N.leb_gt in E; now apply N.ltb_lt].
+    - assert (E : (x <=? N.of_nat (length fl)) = true) by (now apply N.leb_le). now rewrite E.
+    - now rewrite (proj2 (N.leb_le 0 _) (N.le_0_l _)).
+    - now rewrite (proj2 (N.leb_le 0 _) (N.le_0_l _)). }
+  rewrite Hb3.
+  destruct (sv <=? ev) eqn:C4; cbn [negb andb]; [|eexists; reflexivity].
+  apply N.leb_le in C4.
+  fold sv ev.
+  assert (Hsub : usub ev sv s3 = ROk (ev - sv) s3).
+  { unfold usub. assert (E : (ev <? sv) = false) by (now apply N.ltb_ge). now rewrite E. }
+  rewrite (bind_ok _ _ _ _ _ Hsub).
+  destruct (at_ + (ev - sv) <=? N.of_nat (length tl)) eqn:C5.
+  2: { apply N.leb_gt in C5.
+       assert (E : (N.of_nat (length tl) <? at_ + (ev - sv)) = true) by (now apply N.ltb_lt).
+       rewrite E, orb_true_r. eexists; reflexivity. }
+  apply N.leb_le in C5.
+  assert (E5 : (N.of_nat (length tl) <? ev - sv) = false) by (apply N.ltb_ge; lia).
+  assert (E6 : (N.of_nat (length tl) <? at_ + (ev - sv)) = false) by (now apply N.ltb_ge).
+  rewrite E5, E6. cbn [orb].
+  destruct (collect_range_spec (N.to_nat (ev - sv)) fl sv s3) as (vals & Ec & HLv & HNv); [lia|].
+  rewrite (bind_ok _ _ _ _ _ Ec).
+  rewrite (bind_ok _ _ _ _ _ (vec_get_ok s3 tid tl Htl)).
+  destruct (put_all_spec vals tl at_) as (HLp & HNp); [lia|].
+  assert (Hfl' : Forall (val_ok s3) (put_all tl at_ vals)).
+  { apply Forall_forall. intros y Hy. apply In_nth_error in Hy. destruct Hy as (j & Hj).
+    rewrite HNp in Hj. rewrite Forall_forall in Hftl, Hffl.
+    destruct ((N.to_nat at_ <=? j) && (j <? N.to_nat at_ + length vals))%nat eqn:Ec2.
+    - apply nth_error_In in Hj.
+      apply In_nth_error in Hj. destruct Hj as (j2 & Hj2).
+      assert (j2 < length vals)%nat by (apply nth_error_Some; congruence).
+      rewrite HNv in Hj2 by lia. apply nth_error_In in Hj2. now apply Hffl.
+    - apply nth_error_In in Hj. now apply Hftl. }
+  destruct (set_vec_fields s3 tid tl _ W Htl Hfl') as (W' & Hvv & Hvo & Hpo).
+  eexists. exists (map (absv s) (put_all tl at_ vals)).
+  refine (conj eq_refl (conj Hvv (conj _ (conj Hvo (conj Hpo (conj eq_refl W')))))).
+  unfold copied. rewrite !map_length. split; [exact HLp|].
+  intros j. rewrite !nth_error_map, HNp, HLv.
+  destruct ((N.to_nat at_ <=? j) && (j <? N.to_nat at_ + N.to_nat (ev - sv)))%nat eqn:Ec2; [|reflexivity].
+  apply andb_prop in Ec2. destruct Ec2 as (Ea & Eb). apply Nat.leb_le in Ea. apply Nat.ltb_lt in Eb.
+  rewrite HNv by lia. reflexivity.
+Qed.
+
+(* the statement of vmc_after_spec as a predicate on the outcome [r] *)
+Definition vmc_post (s : vm) (r : res vcell) (start end_ : option N) (tov atv fromv : vcell) : Prop :=
+  match absv s fromv, aindex (absv s atv), absv s tov with
+  | ALoc (LVec fid), Some at_, ALoc (LVec tid) =>
+      exists fxs txs, a_vec (abs s) fid = Some fxs /\ a_vec (abs s) tid = Some txs /\
+        let sv := odef start 0 in
+        let ev := odef end_ (N.of_nat (length fxs)) in
+        if (at_ <=? N.of_nat (length txs)) && (sv <=? N.of_nat (length fxs)) &&
+           (ev <=? N.of_nat (length fxs)) && (sv <=? ev) &&
+           (at_ + (ev - sv) <=? N.of_nat (length txs))
+        then exists s' txs', r = ROk VVoid s' /\
+               a_vec (abs s') tid = Some txs' /\ copied txs fxs txs' at_ sv ev /\
+               (forall u, u <> tid -> a_vec (abs s') u = a_vec (abs s) u) /\
+               (forall q, a_pair (abs s') q = a_pair (abs s) q) /\
+               hp s' = hp s /\ values_are_refs s'
+        else exists s', r = RErr E_OTHER [] s'
+  | _, _, _ => exists s', r = RErr E_OTHER [] s'
+  end.
+
+Theorem vector_copy_mut_refines3 s tov atv fromv :
+  values_are_refs s -> val_ok s tov -> val_ok s atv -> val_ok s fromv ->
+  called_with s [tov; atv; fromv] ->
+  vmc_post s (vector_mut_copy s) None None tov atv fromv.
+Proof.
+  intros W Hto Hat Hfrom H. unfold called_with in H. cbn [len length rev app N.of_nat Pos.of_succ_nat] in H.
+  set (s1 := with_sp s (sp s - 1)).
+  pose proof (stack_top_tail _ _ _ _ H) as H1.
+  assert (E : vector_mut_copy s = vmc_after None None s1).
+  { unfold vector_mut_copy. pop_argc_tac H s 3 3 (Some 5). reflexivity. }
+  rewrite E. exact (vmc_after_spec s1 None None tov atv fromv W Hto Hat Hfrom H1).
+Qed.
+
+Theorem vector_copy_mut_refines4 s tov atv fromv startv :
+  values_are_refs s -> val_ok s tov -> val_ok s atv -> val_ok s fromv -> val_ok s startv ->
+  called_with s [tov; atv; fromv; startv] ->
+  match aindex (absv s startv) with
+  | Some b => vmc_post s (vector_mut_copy s) (Some b) None tov atv fromv
+  | None => exists s', vector_mut_copy s = RErr E_OTHER [] s'
+  end.
+Proof.
+  intros W Hto Hat Hfrom Hst H. unfold called_with in H. cbn [len length rev app N.of_nat Pos.of_succ_nat] in H.
+  set (s1 := with_sp s (sp s - 1)).
+  set (s2 := with_sp s1 (sp s1 - 1)).
+  pose proof (stack_top_tail _ _ _ _ H) as H1.
+  pose proof (stack_top_tail _ _ _ _ H1) as H2.
+  pose proof (pop_index_spec s1 startv _ Hst H1) as Ps. change (absv s1 startv) with (absv s startv) in Ps. fold s2 in Ps.
+  assert (E : vector_mut_copy s =
+     bindM (dom b <- pop_index; ret (Some b)) (fun start => vmc_after start None) s1).
+  { unfold vector_mut_copy. pop_argc_tac H s 4 3 (Some 5). reflexivity. }
+  rewrite E.
+  destruct (aindex (absv s startv)) as [b|].
+  - unfold bindM at 1. unfold bindM at 1. rewrite Ps. unfold ret at 1.
+    exact (vmc_after_spec s2 (Some b) None tov atv fromv W Hto Hat Hfrom H2).
+  - exists s2. unfold bindM at 1. unfold bindM at 1. rewrite Ps. reflexivity.
+Qed.
+
+Theorem vector_copy_mut_refines5 s tov atv fromv startv endv :
+  values_are_refs s -> val_ok s tov -> val_ok s atv -> val_ok s fromv ->
+  val_ok s startv -> val_ok s endv ->
+  called_with s [tov; atv; fromv; startv; endv] ->
+  match aindex (absv s endv), aindex (absv s startv) with
+  | Some e, Some b => vmc_post s (vector_mut_copy s) (Some b) (Some e) tov atv fromv
+  | _, _ => exists s', vector_mut_copy s = RErr E_OTHER [] s'
+  end.
+Proof.
+  intros W Hto Hat Hfrom Hst Hen H. unfold called_with in H. cbn [len length rev app N.of_nat Pos.of_succ_nat] in H.
+  set (s1 := with_sp s (sp s - 1)).
+  set (s2 := with_sp s1 (sp s1 - 1)).
+  set (s3 := with_sp s2 (sp s2 - 1)).
+  pose proof (stack_top_tail _ _ _ _ H) as H1.
+  pose proof (stack_top_tail _ _ _ _ H1) as H2.
+  pose proof (stack_top_tail _ _ _ _ H2) as H3.
+  pose proof (pop_index_spec s1 endv _ Hen H1) as Pe. change (absv s1 endv) with (absv s endv) in Pe. fold s2 in Pe.
+  pose proof (pop_index_spec s2 startv _ Hst H2) as Ps. change (absv s2 startv) with (absv s startv) in Ps. fold s3 in Ps.
+  assert (E : vector_mut_copy s =
+     bindM (dom e <- pop_index; ret (Some e))
+       (fun end_ => dom start <- (dom b <- pop_index; ret (Some b)); vmc_after start end_) s1).
+  { unfold vector_mut_copy. pop_argc_tac H s 5 3 (Some 5). reflexivity. }
+  rewrite E.
+  destruct (aindex (absv s endv)) as [e|].
+  - destruct (aindex (absv s startv)) as [b|].
+    + unfold bindM at 1. unfold bindM at 1. rewrite Pe. unfold ret at 1.
+      unfold bindM at 1. unfold bindM at 1. rewrite Ps. unfold ret at 1.
+      exact (vmc_after_spec s3 (Some b) (Some e) tov atv fromv W Hto Hat Hfrom H3).
+    + exists s3. unfold bindM at 1. unfold bindM at 1. rewrite Pe. unfold ret at 1.
+      unfold bindM at 1. unfold bindM at 1. rewrite Ps. reflexivity.
+  - exists s2. unfold bindM at 1. unfold bindM at 1. rewrite Pe. reflexivity.
+Qed.
